@@ -681,6 +681,56 @@ Proof.
 Qed.
 
 (* ============================================================================================ *)
+(* sphere : cylinder, deep arm (sphere centre inside the cylinder)                                *)
+Lemma sphereCylinder_deep (margin : R) (c1 : vec3 R) (m1 : mat3 R) (r : R) (c2 : vec3 R) (m2 : mat3 R) (Rc h : R) :
+  let a := zaxis m2 in
+  let x := dot3 a (sub3 c1 c2) in
+  let rho := norm3 (sub3 (sub3 c1 c2) (scl3 a x)) in
+  dot3 a a = 1 -> Rabs x < h -> rho < Rc -> 0 <= margin + r + Rc ->
+  let d := - Rmin (h - Rabs x) (Rc - rho) - r in
+  (margin < d -> sphereCylinder margin c1 m1 r c2 m2 Rc h = []) /\
+  (d <= margin -> exists (pos n : vec3 R), sphereCylinder margin c1 m1 r c2 m2 Rc h = [(d, pos, n, zero3)]).
+Proof.
+  intros a x rho U X RH M d.
+  pose proof (norm3_nonneg (sub3 (sub3 c1 c2) (scl3 a x))) as RP. fold rho in RP.
+  pose proof (norm3_sq (sub3 (sub3 c1 c2) (scl3 a x))) as RS. fold rho in RS.
+  unfold sphereCylinder. fold a. fold x. nR.
+  change (sqrt (dot3 (sub3 (sub3 c1 c2) (scl3 a x)) (sub3 (sub3 c1 c2) (scl3 a x)))) with rho.
+  rewrite <- RS.
+  assert (S0 : Rltb (Rabs x) h = true) by (apply Rltb_true; exact X).
+  assert (C0 : Rltb (rho * rho) (Rc * Rc) = true) by (apply Rltb_true; nra).
+  rewrite S0, C0. cbn [andb].
+  destruct (Rltb (h - Rabs x) (Rc - rho)) eqn:CN; [apply Rltb_true in CN|apply Rltb_false in CN]; cbn [negb].
+  - (* cap arm *)
+    assert (Dm : d = - (h - Rabs x) - r) by (unfold d, Rmin; destruct (Rle_dec _ _); lra).
+    destruct m2 as [[[[[[[[m20 m21] m22] m23] m24] m25] m26] m27] m28].
+    destruct (Rltb 0 x) eqn:TX; [apply Rltb_true in TX|apply Rltb_false in TX]; rewrite rawPS_eq; unfold psDist.
+    + assert (E : dot3 (sub3 c1 (add3 c2 (scl3 a h))) (zaxis (m20, m21, m22, m23, m24, m25, m26, m27, m28)) - r = d).
+      { change (zaxis (m20, m21, m22, m23, m24, m25, m26, m27, m28)) with a.
+        rewrite Dm, Rabs_pos_eq by lra.
+        assert (Q : dot3 (sub3 c1 (add3 c2 (scl3 a h))) a = x - h * dot3 a a).
+        { unfold x. dv c1; dv c2; dv a. unfold dot3, sub3, add3, scl3. nR. ring. }
+        rewrite Q, U. ring. }
+      rewrite E. split; intros L; destruct (Rle_dec d margin); try lra; [reflexivity|].
+      cbn [map flipNormal psContact]. unfold psContact, psDist. rewrite E. cbn [map flipNormal]. eexists _, _. reflexivity.
+    + assert (E : dot3 (sub3 c1 (add3 c2 (scl3 a (- h)))) (zaxis (- m20, m21, - m22, - m23, m24, - m25, - m26, m27, - m28)) - r = d).
+      { rewrite Dm, Rabs_left1 by lra.
+        assert (Q : dot3 (sub3 c1 (add3 c2 (scl3 a (- h)))) (zaxis (- m20, m21, - m22, - m23, m24, - m25, - m26, m27, - m28)) = - x - h * dot3 a a).
+        { unfold x, a, zaxis. dv c1; dv c2. unfold dot3, sub3, add3, scl3. nR. ring. }
+        rewrite Q, U. ring. }
+      rewrite E. split; intros L; destruct (Rle_dec d margin); try lra; [reflexivity|].
+      unfold psContact, psDist. rewrite E. cbn [map flipNormal]. eexists _, _. reflexivity.
+  - (* side arm *)
+    assert (Dm : d = - (Rc - rho) - r) by (unfold d, Rmin; destruct (Rle_dec _ _); lra).
+    rewrite rawSS_eq by assumption. unfold ssDist.
+    assert (E : norm3 (sub3 (add3 (scl3 a x) c2) c1) = rho).
+    { unfold rho. rewrite norm3_sub_sym. f_equal. dv c1; dv c2; dv a. unfold sub3, add3, scl3. nR. apply vec_ext; ring. }
+    rewrite E. replace (rho - r - Rc) with d by lra.
+    split; intros L; destruct (Rle_dec d margin); try lra; [reflexivity|].
+    unfold ssContact, ssDist. rewrite E. replace (rho - r - Rc) with d by lra. eexists _, _. reflexivity.
+Qed.
+
+(* ============================================================================================ *)
 (* final statements, restated verbatim in Props/C13.v *)
 Lemma C13_frame_l :
 forall xin yin : vec3 R,
@@ -829,6 +879,19 @@ Proof.
   - apply (sc_on_segment c1 c2 a len L).
   - intros s S. apply (sc_nearest c1 c2 a len s U L S).
   - intros x y s S X Y. apply (sc_lower_bound c1 r1 c2 a r2 len s x y U L S X Y).
+Qed.
+
+Lemma C13_sphere_cylinder_deep_l :
+forall (margin : R) (c1 : vec3 R) (m1 : mat3 R) (r : R) (c2 : vec3 R) (m2 : mat3 R) (Rc h : R),
+  let a := zaxis m2 in
+  let x := dot3 a (sub3 c1 c2) in
+  let rho := norm3 (sub3 (sub3 c1 c2) (scl3 a x)) in
+  dot3 a a = 1 -> Rabs x < h -> rho < Rc -> 0 <= margin + r + Rc ->
+  let d := - Rmin (h - Rabs x) (Rc - rho) - r in
+  (margin < d -> sphereCylinder margin c1 m1 r c2 m2 Rc h = []) /\
+  (d <= margin -> exists (pos n : vec3 R), sphereCylinder margin c1 m1 r c2 m2 Rc h = [(d, pos, n, zero3)]).
+Proof.
+  exact sphereCylinder_deep.
 Qed.
 
 Lemma C13_capsule_capsule_partial_l :
